@@ -687,15 +687,16 @@ pub mod verif {
         static SALT_OVERRIDE: Cell<Option<[u8; 4]>> = Cell::new(None);
     }
 
-    /// While set, every handshake object created on this thread uses these 4 bytes as the random salt of its
-    /// salted node-id hash (the code treats them as opaque random; they decide the order of two hashes).
+    /// While set, every handshake object created on this thread uses the FIRST of these bytes as the leading byte of
+    /// the random salt of its salted node-id hash (it decides the order of two hashes); the other three salt bytes
+    /// stay random, so that two objects of one node still have different salts, as without the seam.
     pub fn set_salt_override(salt: Option<[u8; 4]>) {
         SALT_OVERRIDE.with(|s| s.set(salt))
     }
 
     pub(super) fn apply_salt_override(salt: &mut [u8]) {
         if let Some(val) = SALT_OVERRIDE.with(|s| s.get()) {
-            salt.copy_from_slice(&val)
+            salt[0] = val[0]
         }
     }
 
